@@ -23,6 +23,7 @@ import Desync.Model.Dedup
 import Desync.Model.Pool
 import Desync.Model.Chain
 import Desync.Model.Http
+import Driver.SparseAccept
 
 namespace Driver
 open Desync
@@ -624,6 +625,7 @@ def runLine (l : String) : String :=
     | "http.chunk" => cmdHttp false a
     | "http.index" => cmdHttp true a
     | "sparse.ops" => cmdSparseOps a
+    | "sparse.accept" => SparseAccept.run (a.get "isnull") (a.get "readers") (a.get "events")
     | "chunk.fromstorage" => cmdFromStorage a
     | "verify.index" => cmdVerifyIndex a
     | "fmt.next" => cmdFmtNext a
